@@ -122,6 +122,12 @@ func routeScenario(v6 bool, xids, ths []byte, evs [][]byte) []callOutcome {
 					dhcpv4.WithMessageType(dhcpv4.MessageTypeOffer), dhcpv4.WithGeneric(dhcpv4.GenericOptionCode(224), []byte{p}))
 				m.OpCode = op
 				b = m.ToBytes()
+				if kind == 1 && int(p+x)%8 >= 4 {
+					// the client's own address is in the chaddr field, but the length octet says otherwise (0, 3, 7, 16):
+					// the address a datagram carries is chaddr[:hlen], not what the padding happens to hold
+					copy(b[28:44], labHW)
+					b[2] = []byte{0, 3, 7, 16}[int(p)%4]
+				}
 				if kind == 3 {
 					b = b[:200]
 				}
